@@ -12,3 +12,6 @@ _reg("C04")
 _reg("C05")
 _reg("C06")
 _reg("C07")
+_reg("C08")
+_reg("C09")
+_reg("C10")
